@@ -139,6 +139,7 @@ def canonical(desc, v):
 def run(ctx, model):
     from props import logixdrv
     logixdrv.run_writes(ctx, model, "C02")
+    logixdrv.run_mixed(ctx, model, "C02")
     from props import kernels
     kernels.run_masks(ctx, model, "C02")
     kernels.run_boolwin(ctx, model, "C02")
